@@ -6,6 +6,7 @@ R-COPYCON    the contract that lets ioapi_base.copy end with updatetflag() only.
 R-FOURCOUNT  updatemeta's closure reconciles each of the four encodings of the variable count
              (VAR-LIST, NVARS, VAR dimension, TFLAG second axis) under a test of that same encoding.
 R-COUNTATTR  updatemeta sets NLAYS/NCOLS/NROWS from the dimension lengths and marks TSTEP unlimited.
+R-VARLISTWIDTH every decode of the fixed-width VAR-LIST attribute cuts 16-character fields.
 """
 import ast
 
@@ -214,6 +215,84 @@ class Sync(object):
         out = w.run(self.fn.body, init or {})
         self.exit_state = out
         return self
+
+
+def _is_varlist_read(e):
+    return isinstance(e, ast.Call) and (dotted(e.func) or '') == 'getattr' and len(e.args) >= 2 and const_str(e.args[1]) == 'VAR-LIST'
+
+
+def _len_mod16(test, name):
+    """does test compare len(<name>) % 16 with 0?  returns '==' / '!=' / None"""
+    for n in ast.walk(test):
+        if isinstance(n, ast.Compare) and len(n.ops) == 1 and isinstance(n.left, ast.BinOp) and isinstance(n.left.op, ast.Mod) \
+                and isinstance(n.left.right, ast.Constant) and n.left.right.value == 16 \
+                and isinstance(n.left.left, ast.Call) and (dotted(n.left.left.func) or '') == 'len' and n.left.left.args \
+                and norm(n.left.left.args[0]) == name and isinstance(n.comparators[0], ast.Constant) and n.comparators[0].value == 0:
+            return '==' if isinstance(n.ops[0], ast.Eq) else ('!=' if isinstance(n.ops[0], ast.NotEq) else None)
+    return None
+
+
+def check_varlist_width(ctx, rule='R-VARLISTWIDTH'):
+    """VAR-LIST is a fixed-width encoding: 16 characters per name, no separator.  A name of exactly 16 characters (legal in the
+    convention) touches its neighbour, so a decoder that splits the attribute at white space reads two names as one and every count
+    derived from the decoded list (NVARS, the VAR dimension, the second axis of TFLAG) disagrees with the list.  Every decode of the
+    attribute in the IOAPI modules must therefore cut it in 16-character fields; splitting at white space is accepted only as the
+    fallback for a string whose length is not a multiple of 16 (what getVarlist does)."""
+    ctx.rule(rule, 'every decode of VAR-LIST cuts 16-character fields; white-space splitting only for a length that is not a multiple of 16')
+    n = 0
+    for rp in (IO, 'conventions/ioapi/_ioapi.py'):
+        m = ctx.src.mod(rp)
+        params = {}
+        for q, fn in sorted(m.functions.items()):
+            bound = set(st.targets[0].id for st in iter_stmts(fn.body) if isinstance(st, ast.Assign) and len(st.targets) == 1
+                        and isinstance(st.targets[0], ast.Name) and _is_varlist_read(st.value))
+            for c in walk_expr(fn):
+                if isinstance(c, ast.Call) and isinstance(c.func, ast.Name) and c.func.id in m.functions:
+                    callee = m.functions[c.func.id]
+                    for i, a in enumerate(c.args):
+                        if (_is_varlist_read(a) or (isinstance(a, ast.Name) and a.id in bound)) and i < len(callee.args.args):
+                            params.setdefault(c.func.id, {})[callee.args.args[i].arg] = c
+        for q, fn in sorted(m.functions.items()):
+            # names bound to the attribute value, and parameters that receive it from a call in this module
+            names = dict(params.get(q, {}))
+            for st in iter_stmts(fn.body):
+                if isinstance(st, ast.Assign) and len(st.targets) == 1 and isinstance(st.targets[0], ast.Name) and _is_varlist_read(st.value):
+                    names[st.targets[0].id] = st
+            for c in walk_expr(fn):
+                if not (isinstance(c, ast.Call) and isinstance(c.func, ast.Attribute) and c.func.attr == 'split' and not c.args):
+                    continue
+                recv = c.func.value
+                if _is_varlist_read(recv):
+                    nm = None
+                elif isinstance(recv, ast.Name) and recv.id in names:
+                    nm = recv.id
+                else:
+                    continue
+                if getattr(c, '_fn', fn) is not fn:
+                    continue
+                n += 1
+                from .. import api as _api
+                st = _api.stmt_of(c)
+                where = 'src/PseudoNetCDF/%s %s' % (rp, q)
+                oid = '%s:%s' % (q, norm(st)[:40])
+                guarded = False
+                if nm is not None:
+                    child, p = st, getattr(st, '_parent', None)
+                    while p is not None and p is not fn:
+                        if isinstance(p, ast.If):
+                            op = _len_mod16(p.test, nm)
+                            inbody = any(child is b or child in list(ast.walk(b)) for b in p.body)
+                            if (op == '==' and not inbody) or (op == '!=' and inbody):
+                                guarded = True
+                        child, p = p, getattr(p, '_parent', None)
+                if guarded:
+                    ctx.ok(rule, oid, where, 'white-space split only when the length is not a multiple of 16')
+                else:
+                    ctx.violation(Finding(rule, rp, q, st,
+                                          'VAR-LIST is decoded by splitting at white space: a 16-character variable name touches the next field, the two are '
+                                          'read as one name, and NVARS / VAR / TFLAG no longer agree with the list (cut the attribute in 16-character fields)'),
+                                  oid=oid)
+    ctx.floor('VAR-LIST decode sites judged by R-VARLISTWIDTH', n, 1)
 
 
 def file_returning_ops(src):
@@ -664,6 +743,7 @@ def run(ctx):
         ctx.ok('R-TFLAGRESTORE', 'createVariable', '%s ioapi_base.createVariable' % where, norm(nofill[0].test))
     else:
         ctx.violation(Finding('R-TFLAGRESTORE', IO, 'ioapi_base.createVariable', cvf.body[-1], 'TFLAG can be created with a fill value: mask(coords=True) then masks time flags, and the masked/filled flags are decoded as times'), oid='createVariable')
+    check_varlist_width(ctx)
     # ---- R-COUNTATTR
     for attr, dim in (('NLAYS', 'LAY'), ('NCOLS', 'COL'), ('NROWS', 'ROW')):
         want = "self.%s = len(self.dimensions['%s'])" % (attr, dim)
